@@ -120,6 +120,18 @@ class Templates:
         f = v["fields"]
         if fixed_fields is not None:
             fields = fixed_fields
+        elif kind == "Assert" and self.ctx.choose([True, True]) == 1:
+            # assert(lhs OP rhs): the dispatcher evaluates the two operands itself, keeps copies for the failure message,
+            # and then runs the comparison expression on the duplicates
+            cmp_kind = ["Equal", "LessThan"][self.ctx.choose([True, True])]
+            inner = Rc(Struct("Expression", {
+                "expr_": Enum("Expression_", "BinaryOperator", [self.sub("Assert.lhs"),
+                                                                Struct("BinaryOperator", {"kind": Enum("BinaryOperatorKind", cmp_kind, []),
+                                                                                          "position": Opaque("op.pos")}),
+                                                                self.sub("Assert.rhs")]),
+                "position": Opaque("Assert.0.pos"), "value_is_used": True, "id": Opaque("Assert.0.id"),
+                "__binop_inner": cmp_kind}, partial=True))
+            fields = [inner]
         elif f["kind"] == "unit":
             fields = []
         else:
@@ -225,6 +237,14 @@ class StepRun:
                     used = False
                 if used:
                     self.push_value(exs.fields["__sub"])
+                continue
+            if "__binop_inner" in exs.fields:
+                vals = self.frame.fields["evalled_values"].items
+                if len(vals) < 2:
+                    raise Unsupported("comparison inside assert finds fewer than two operands")
+                vals.pop()
+                vals.pop()
+                self.push_value("Assert.0")
                 continue
             if ex is not expr:
                 raise Unsupported("driver met an unknown pending entry")
@@ -536,6 +556,15 @@ def snippet(P, rec, names, ns_paths):
         op = "+=" if f[1].variant == "Add" else "-="
         return 'let uv = "s"', f"uv {op} {tok_literal(rec, 'AssignUpdate.2', '1')}"
     if k == "Assert":
+        inner = f[0].inner if isinstance(f[0], Rc) else f[0]
+        if isinstance(inner, Struct) and "__binop_inner" in inner.fields:
+            op = BINOPS[inner.fields["__binop_inner"]]
+            lhs, rhs = tok_literal(rec, 'Assert.lhs', '1'), tok_literal(rec, 'Assert.rhs', '2')
+            if lhs is None or rhs is None:
+                return None
+            if lhs == rhs and op == "==":
+                rhs = "99"         # the failing-assertion path needs operands that differ
+            return "", f"assert({lhs} {op} {rhs})"
         return "", f"assert({tok_literal(rec, 'Assert.0', '1')})"
     if k == "DotAccess":
         return "", f"{tok_literal(rec, 'DotAccess.0', '1')}.nosuchfield"
